@@ -12,16 +12,24 @@ class GopherProtocol(BaseGopherProtocol):
             self.searchrequest = self.requestlist[1]
         return True
 
+    @staticmethod
+    def menufield(text: str) -> str:
+        # A menu line ends at CR LF and its fields at TAB: none of them can
+        # be part of a field.  (A file name may hold any of them; left in,
+        # the rest of the name is read as the next field or line -- as
+        # another host, another item, or a Gopher+ block of this one.)
+        for char in "\t\r\n":
+            text = text.replace(char, " ")
+        return text
+
     def renderobjinfo(self, entry):
-        # A TAB inside the display string (an abstract line, a Name= from a
-        # link file) would be read as a field separator by the client.
         retval = (
             entry.gettype("0")
-            + (entry.getname() or "").replace("\t", " ")
+            + self.menufield(entry.getname() or "")
             + "\t"
-            + entry.getselector()
+            + self.menufield(entry.getselector())
             + "\t"
-            + entry.gethost(default=self.server.server_name)
+            + self.menufield(entry.gethost(default=self.server.server_name))
             + "\t"
             + str(entry.getport(default=self.server.server_port))
         )
